@@ -45,7 +45,7 @@ def run(tier: str) -> int:
     stats = {}
     with common.Lock():
         meta = semprop.regenerate(broken)
-        b2, binfo = common.build_property("C01", ["model/Guards.vo", "sem/Diff.vo", "proofs/SortSound.vo", "proofs/TmpDef.vo"])
+        b2, binfo = common.build_property("C01", ["model/Guards.vo", "sem/Diff.vo", "proofs/SortSound.vo", "proofs/TmpDef.vo", "proofs/FragCheck.vo"])
         broken += b2
         model_ok = not any(x.kind in ("proof", "translator", "forbidden") for x in broken)
         t0 = time.time()
@@ -136,6 +136,21 @@ def run(tier: str) -> int:
             stats["searched_rest_of_corpus_for_a_failing_part"] = len(rest)
         except Exception as e:
             broken.append(Broken("correspondence", "search of the rest of the corpus", str(e)[-800:]))
+    # which accepted parts are covered by the END-TO-END THEOREM (FragCheck.covered_correct: statement fragment + the real
+    # configuration translates like the repaired one)?  For those, correctness is a theorem instance + the K2 equality of this run.
+    covered_names = []
+    try:
+        cc = []
+        for i, parts in out.items():
+            r = byid[i]
+            if r.get("asts") and len(parts) == 1 and parts[0]["k2"] == 0 and r["asts"][0]:
+                cc.append((r["name"], 0, r["asts"][0]))
+        with common.Lock():
+            cv = diffrun.covered("C01", cc)
+        covered_names = sorted(n for n, v in cv.items() if v)
+        stats["parts_checked_for_theorem_coverage"] = len(cc)
+    except Exception as e:
+        broken.append(Broken("correspondence", "evaluation of FragCheck.covered", str(e)[-800:]))
     for name, kf in known_sites.items():
         if name in known_hit:
             res.known(f"{kf['id']}: {kf['what']} -- call site {name}")
@@ -170,6 +185,9 @@ def run(tier: str) -> int:
         "obligations": binfo["obligations"], "discharged": binfo["discharged"] if model_ok else 0, "checker_cmd": binfo["checker_cmd"],
         "trusted_base": res.assumptions, "print_assumptions": binfo["assumptions"], "translated": meta,
         "evaluations": n_parts, "distinct_nontrivial": n_acc,
+        "covered_by_end_to_end_theorem": {"count": len(covered_names), "instructions": covered_names[:400],
+                                          "meaning": "FragCheck.covered 0 <ast> = true (vm_compute): by FragCheck.covered_correct the model's effect for the REAL configuration simulates "
+                                                     "the C semantics of the behaviour from every related state; K2 of this run shows the real emitted text denotes exactly that effect"},
         "rule": "instruction definitions drawn from the bundled corpus (quick: a greedy cover of every operand-class/operator/operand-class triple, called routine and cast type of the corpus (~310 instructions) + 50 random + known call sites; thorough: all 2181); "
                 "each behaviour part compiled through load_insn_behavior/parse/transform_insn; non-trivial = accepted part whose real body "
                 "denotes the same tree as the model (K2 status 0)",
